@@ -144,6 +144,11 @@ def is_symbol(s):
     return not any(c.isspace() or ord(c) < 32 or ord(c) in (0x7f, 0x85, 0x2028, 0x2029, 0x1c, 0x1d, 0x1e) for c in s)
 
 
+def text_modelled(text):
+    """the model's lexer reads `\\d` as ASCII digits: texts with other decimal digits are left to the real lexer"""
+    return not any(ord(c) > 127 and c.isdecimal() for c in text)
+
+
 def line_safe(s):
     return s.splitlines() in ([s], []) and "\n" not in s and "\r" not in s
 
@@ -712,7 +717,28 @@ def fixed_cases():
              "{a:p[] b:q[]} {c:r[]}", "{a:p[]} {", "{a:p[]} {b", "{a:p[]} }", "{a:p[ARG1]}", "{a:p[ARG1 b,]}",
              "{a:p{}[]}", "{a:p{e SF}[]}", "{a b}", "{a: b: c:p[]}", "", " ", "{a:p[]", "{a:p[]}{b:q[]}", "{a:p[] ?}",
              "{a:p(\"x)[]}", "{a:p[]}\n\n{b:q<1 2>(\"c\"){x PERS 3}[BV a]}", "{a", "{a:", "{a:p", "{a:p[", "{a:p[ARG1",
-             "{a: (fragmented)", "{a: (fragmented) b", "{(cyclic fragmented) a:p[]}", "{a: (cyclic) a:p[]}", "x", "}"]
+             "{a: (fragmented)", "{a: (fragmented) b", "{(cyclic fragmented) a:p[]}", "{a: (cyclic) a:p[]}", "x", "}",
+             # lexer stress: adjacent tokens without blanks, status markers, GRAPHSTATUS variants
+             "{a:(fragmented)|b:p[]|c:q<0:1>(\"x\"){e SF prop}[ARG1 b,ARG2 c]}", "{(cyclic  fragmented)a:p[]}",
+             "{(cyclic )a:p[]}", "{()a:p[]}", "{(fragmented a:p[]}", "{(cyclicfragmented) a:p[]}", "{(fragmentedcyclic)}",
+             "{( fragmented) a:p[]}", "{(cyclic fragmented ) a:p[]}", "{a:|b:p[]}", "{a||:p[]}", "{a:p|q[]}", "{|a:p[]|b:q[]}",
+             # SYMBOL boundaries: predicates containing < ( : , and other class characters
+             "{a:p<q[]}", "{a:p(q[]}", "{a:p:q[]}", "{a:p,q[]}", "{a:p)q[]}", "{a:p>q[]}", "{a:p\"q[]}", "{a:p#q[]}",
+             "{a:p\tq[]}", "{a:p\u00a0q[]}", "{a:p\u3000[]}", "{a:_p_v_1<0:1>[]}", "{a:p<0:1><2:3>[]}", "{a:p <0:1>[]}",
+             # LNK variants
+             "{a:p<1 2 3>[]}", "{a:p<1  2>[]}", "{a:p<-1:-1>[]}", "{a:p<1#-2>[]}", "{a:p<@5>[]}", "{a:p<@-5>[]}",
+             "{a:p<1:2[]}", "{a:p<a>[]}", "{a:p<>[]}", "{a:p<1 >[]}", "{a:p< 1>[]}", "{a:p<1:2:3>[]}", "{a:p<-1 2>[]}",
+             "{a:p<01:002>[]}",
+             # CARG variants: escapes, quotes, parentheses inside, unterminated, missing parenthesis
+             "{a:p(\"\\\\\")[]}", "{a:p(\"\\\"\")[]}", "{a:p(\"a\\\")[]}", "{a:p(\"a\")b\")[]}", "{a:p(\"a\" )[]}",
+             "{a:p(\"a\"x)[]}", "{a:p( \"a\")[]}", "{a:p(\"\")(\"\")[]}", "{a:p(\"(fragmented)\")[]}", "{a:p(\"a\\",
+             "{a:p(\"a\nb\")[]}", "{a:p(\"a\rb\")[]}",
+             # IDENTIFIER variants
+             "#id{a:p[]}", "#id  {a:p[]}", "#id x {a:p[]}", "#{a:p[]}", "# {a:p[]}", "a#b{a:p[]}", "#a:_x{e}[]",
+             "{#a:_x{e}[]}", "{a:#p{e}[]}", "{a:#p[]}", "#i#j {a:p[]}", "#id", "#id\n{a:p[]}", "#id\t{a:p[]}",
+             "#id\u00a0{a:p[]}", "{a:p[] #x}", "{a:p[]} #2 {b:q[]}",
+             # line breaks and white space
+             "{a:p[]\r\n b:q[]}", "{a:p[]\x0b}", "{a:p[]\x1c}", "{a:\tp[]}", "{a :p []}", "{\u2028a:p[]}", "{a:p[]}\x85{b:q[]}"]
     for t in texts:
         for api in ("decode", "loads"):
             out.append({"kind": "parse", "text": cps(t), "api": api})
@@ -980,6 +1006,9 @@ class C03(Check):
             else:
                 res["dec"] = dec
                 res["re"] = dec
+            res["ltoks"] = res["toks"]      # what the model's own lexer must return on the text
+            res["ldec"] = res["dec"]        # … and its lexer followed by its parser
+            res["lexok"] = bool(lexable(e, o))   # the oracle's scope predicate = the hypothesis of the text theorems
             return res
         if k == "docs":
             es = [eds_of_j(g) for g in case["docs"]]
@@ -991,7 +1020,8 @@ class C03(Check):
                 text = edsnative.dumps(es, **opts_kw(o))
             except KeyError:
                 return {"err": "KeyError"}
-            return {"text": cps(text), "dec": guarded(lambda: [eds_to_j(d) for d in edsnative.loads(text)])}
+            dec = guarded(lambda: [eds_to_j(d) for d in edsnative.loads(text)])
+            return {"text": cps(text), "dec": dec, "ldec": dec}
         if k == "parse":
             text = uncps(case["text"])
             if case["api"] == "decode":
@@ -1060,13 +1090,15 @@ class C03(Check):
             return {"op": "docs", "docs": case["docs"], "opts": case["opts"]}
         if k == "parse":
             text = uncps(case["text"])
+            if not text_modelled(text):
+                return None
             try:
                 toks = lex_tokens(text)
             except EDSSyntaxError:
-                return None     # the lexer itself rejects the text: outside the token-level model
+                toks = []
             if not all(ascii_cased_only(uncps(t)) for name, t in toks if name == "SYMBOL"):
                 return None
-            return {"op": "parse", "toks": toks, "api": case["api"]}
+            return {"op": "lextext", "text": case["text"], "api": case["api"]}
         if k == "json":
             return {"op": "json", "eds": case["eds"], "properties": case["properties"], "lnk": case["lnk"]}
         if k == "penman":
@@ -1087,17 +1119,31 @@ class C03(Check):
         case = expand(case)
         if case["kind"] == "native" and "text" in res:
             e = eds_of_j(case["eds"])
+            tm = text_modelled(uncps(res["text"]))
             if not lexable(e, case["opts"]):
-                return {"text": res["text"]}
+                # the token VIEW of the encoder output is only claimed for lexable strings; the text, and what the
+                # model's lexer and parser make of it, are compared for every graph
+                return {k: res[k] for k in (("text", "ltoks", "ldec", "lexok") if tm else ("text", "lexok"))}
+            if not tm:
+                return {k: v for k, v in res.items() if k not in ("ltoks", "ldec")}
         if case["kind"] == "docs" and isinstance(res, dict) and "text" in res:
             es = [eds_of_j(g) for g in case["docs"]]
+            tm = text_modelled(uncps(res["text"]))
             if not all(lexable(e, case["opts"]) for e in es):
-                return {"text": res["text"]}
+                return {k: res[k] for k in (("text", "ldec") if tm else ("text",))}
+            if not tm:
+                return {k: v for k, v in res.items() if k != "ldec"}
+        if case["kind"] == "parse":
+            try:
+                toks = lex_tokens(uncps(case["text"]))
+            except EDSSyntaxError:
+                toks = {"err": "EDSSyntaxError"}
+            return {"toks": toks, "dec": res}
         return res
 
     def model_compare(self, case, expected, answer):
-        if isinstance(expected, dict) and set(expected) == {"text"} and isinstance(answer, dict):
-            answer = {"text": answer.get("text")} if "text" in answer else answer
+        if isinstance(expected, dict) and "text" in expected and isinstance(answer, dict) and "text" in answer:
+            answer = {k: v for k, v in answer.items() if k in expected}
         return super().model_compare(case, expected, answer)
 
     # ---- direct oracle
